@@ -139,6 +139,9 @@ func runC01(r *Run, rng *Rng, tier string) error {
 		if g.Chance(20) {
 			dirs = append(dirs, "rbac")
 		}
+		if g.Chance(20) {
+			dirs = append(dirs, "crds")
+		}
 		t := genTree(g, treeOpts{MaxLayers: 3, Directives: dirs, ResPerLayer: 4})
 		fam := "valid"
 		if hasDir(treeOpts{Directives: dirs}, "configurations") {
@@ -146,6 +149,9 @@ func runC01(r *Run, rng *Rng, tier string) error {
 		}
 		if hasDir(treeOpts{Directives: dirs}, "rbac") {
 			fam += "+rbac"
+		}
+		if hasDir(treeOpts{Directives: dirs}, "crds") {
+			fam += "+crds"
 		}
 		if g.Chance(20) {
 			twoFaults(g, t)
